@@ -65,9 +65,10 @@ def troffEscape (value : Str) : Str :=
   let v := replaceNlDot v
   guardHead v
 
-/-- `troff_escape_arg` (fixed code): newlines become spaces first. -/
+/-- `troff_escape_arg` (fixed code): newlines become spaces first; a double quote, which in a macro argument is
+argument quoting and not a character, is written as `\(dq` last. -/
 def troffEscapeArg (value : Str) : Str :=
-  troffEscape (replaceChar '\n' [' '] value)
+  replaceChar '"' ['\\', '(', 'd', 'q'] (troffEscape (replaceChar '\n' [' '] value))
 
 /-- `troff_escape` before the fix. -/
 def troffEscapeOld (value : Str) : Str :=
